@@ -208,9 +208,9 @@ HARNESSES = [
     Harness("C07.nuc_class", nuc_class, functions=_F, assumptions=_A, bounds={"classes": "n"},
             params={"quick": [{"n": 2}, {"n": 3}], "thorough": [{"n": 3}, {"n": 4}]}),
     Harness("C07.face_limit", face_limit, functions=_F, assumptions=_A, bounds={"classes": "n"},
-            params={"quick": [{"n": 2}, {"n": 3}], "thorough": [{"n": 3}, {"n": 4}]}),
+            params={"quick": [{"n": 2}, {"n": 3, "_shards": 4}], "thorough": [{"n": 3}, {"n": 4}]}),
     Harness("C07.nonneg", nonneg, functions=_F, assumptions=_A + ["r <= 1/2 is the model's own step limit (maxBinRatio default 0.4)"],
-            bounds={"classes": "n"}, params={"quick": [{"n": 2}, {"n": 3}], "thorough": [{"n": 3}, {"n": 4}]}),
+            bounds={"classes": "n"}, params={"quick": [{"n": 2}, {"n": 3, "_shards": 2}], "thorough": [{"n": 3, "_shards": 2}, {"n": 4, "_shards": 8}]}),
     Harness("C07.dt_limit", dt_limit, functions=[PBM.getDTEuler], assumptions=_A, bounds={"classes": "n", "dissolutionIndex": "di"},
             params={"quick": [{"n": 2, "di": 0}, {"n": 3, "di": 1}], "thorough": [{"n": 4, "di": 0}, {"n": 4, "di": 2}, {"n": 3, "di": 3}]}),
     Harness("C07.diss_index", diss_index, functions=[PBM.getDissolutionIndex, PBM.CumulativeMoment, PBM.ThirdMoment],
